@@ -308,6 +308,18 @@ def enumerator (e : Expr) : Option Int :=
   | some v => if inRange .int v then some v else none
   | none => none
 
+/-- 6.7.2.2p3: the enumerators of ONE enumerator list in order.  An enumerator with `= e` has the value of `e`;
+    one without has the value of the previous enumerator plus 1, the first one 0.  Every value shall be
+    representable as an `int` (p2; also the implicit successor of `INT_MAX` is a constraint violation). -/
+def enumValuesFrom (next : Int) : List (Option Expr) → Option (List Int)
+  | [] => some []
+  | item :: rest =>
+    match (match item with | some e => eval e | none => some next) with
+    | some v => if inRange .int v then (enumValuesFrom (v + 1) rest).map (v :: ·) else none
+    | none => none
+
+def enumValues (l : List (Option Expr)) : Option (List Int) := enumValuesFrom 0 l
+
 /-- array bound: shall be greater than zero (6.7.6.2p1).  Implementation limit (5.2.4.1; gcc: "size of
     array exceeds maximum object size"): no object is larger than `PTRDIFF_MAX = LONG_MAX` bytes, so a
     bound above it has no meaning here either. -/
